@@ -866,8 +866,11 @@ async def _xs_scenario(loop, hist):
             problems.append(("xs/after-m4/length", f"{where}: frame sizes {s.frames[:12]}"))
         for idx, (when, method, target, heads, body) in enumerate(s.framed):
             req = (method, target, heads, body)
-            hit = next((r for r in calls if r["exp"] and r["exp"]["exact"] and not r["used"] and r["start"] <= when <= (r["end"] if r["end"] is not None else when)
-                        and _xs_match(r["exp"], req)), None)
+            cands = [r for r in calls if r["exp"] and r["exp"]["exact"] and not r["used"] and r["start"] <= when <= (r["end"] if r["end"] is not None else when)
+                     and _xs_match(r["exp"], req)]
+            # two calls may have issued byte-identical requests (empty bodies) in overlapping windows: the frames belong to the one that
+            # RETURNED, if any - a call that failed needs no frames, a call that returned does
+            hit = next((r for r in cands if r["outcome"] == "returned"), cands[0] if cands else None)
             if hit is not None:
                 hit["used"] = True
                 hit["answer"] = s.answers.get(idx)
